@@ -22,7 +22,9 @@ Definition ROps (G : R -> R) (K : R -> R -> R) : NumOps R := {|
   npow := Rpower; nexp := exp; nln := ln; nlog10 := fun x => ln x / ln 10;
   ncos := cos; nsin := sin; natan2 := fun y x => atan (y / x); npi := PI;
   ngamma := G; nkv := K;
-  nround := Rround; nfloor := Rfloor; ntoZ := Int_part; nf32 := fun x => x |}.
+  nround := Rround; nfloor := Rfloor; ntoZ := Int_part; nf32 := fun x => x;
+  (* OR of bit patterns has a real-number meaning only when one operand is 0 or both are equal *)
+  nbor32 := fun a b => if Req_EM_T a 0 then b else a |}.
 
 Lemma Rleb_true a b : Rleb a b = true <-> a <= b.
 Proof. unfold Rleb; destruct (Rle_dec a b); split; intros; auto; try discriminate; lra. Qed.
@@ -32,4 +34,4 @@ Lemma Reqb_true a b : Reqb a b = true <-> a = b.
 Proof. unfold Reqb; destruct (Req_EM_T a b); split; intros; auto; try discriminate; lra. Qed.
 
 Ltac rops := cbv [nadd nsub nmul ndiv nopp nsqrt nabs nofZ nleb nltb neqb npow nexp nln nlog10
-                  ncos nsin natan2 npi ngamma nkv nround nfloor ntoZ nf32 ROps nofQ nsqr nzero none].
+                  ncos nsin natan2 npi ngamma nkv nround nfloor ntoZ nf32 nbor32 ROps nofQ nsqr nzero none].
